@@ -353,9 +353,10 @@ class Schedule:  # 0404
             return payload_set
 
         if payload[SZ_TOTAL_FRAGS] != _len(payload_set):  # sched has changed
-            return init_payload_set(payload)
+            payload_set = init_payload_set(payload)  # is complete if only 1 frag
+        else:
+            payload_set[payload[SZ_FRAG_NUMBER] - 1] = payload
 
-        payload_set[payload[SZ_FRAG_NUMBER] - 1] = payload
         if None in payload_set or self._proc_payload_set(
             payload_set
         ):  # sets self._schedule
